@@ -29,7 +29,7 @@ SCOPE = c02.SCOPE
 AKID = c02.AKID
 
 CASES = ['authz-header', 'authz-foreign', 'authz-basic', 'cred-in-header', 'sig-in-header', 'signedheaders-in-header', 'q-credential', 'q-signature', 'q-date', 'q-signedheaders',
-         'q-token', 'fold-signature', 'fold-credential', 'x-amz-date-twice', 'x-amz-date-vs-date', 'date-twice', 'token-header', 'both-carriers']
+         'q-token', 'fold-signature', 'fold-credential', 'x-amz-date-twice', 'x-amz-date-vs-date', 'x-amz-date-blank', 'x-amz-date-spaces', 'date-twice', 'token-header', 'both-carriers']
 
 
 def shapes(tier, seed):
@@ -92,6 +92,7 @@ def run_shape(prog, shape, tier, seed, res):
         first = lambda a, b: (a, b) if want_ok else (b, a)      # (selected-by-"first" rule, other)
         last = lambda a, b: (b, a) if want_ok else (a, b)       # order on the wire when the LAST one is selected
         if case in ('authz-header', 'authz-foreign', 'authz-basic', 'cred-in-header', 'sig-in-header', 'signedheaders-in-header', 'x-amz-date-twice', 'x-amz-date-vs-date',
+                    'x-amz-date-blank', 'x-amz-date-spaces',
                     'date-twice', 'token-header', 'both-carriers'):
             # ---- header carrier
             date_headers = [('x-amz-date', conc_bytes(TS))]
@@ -105,6 +106,13 @@ def run_shape(prog, shape, tier, seed, res):
                     date_headers = [('date', d), ('x-amz-date', conc_bytes(TS))]
                 else:
                     date_headers = [('date', conc_bytes(TS)), ('x-amz-date', d)]
+            elif case in ('x-amz-date-blank', 'x-amz-date-spaces'):
+                # a blank X-Amz-Date is still THE X-Amz-Date header: it is not skipped in favour of a well-formed Date header
+                blank = conc_bytes('' if case == 'x-amz-date-blank' else '  ')
+                if want_ok:
+                    date_headers = [('date', blank), ('x-amz-date', conc_bytes(TS))]
+                else:
+                    date_headers = [('x-amz-date', blank), ('date', conc_bytes(TS))]
             elif case == 'date-twice':
                 d = decoy_date(ctx)
                 a, b = first(conc_bytes(TS), d)
@@ -341,6 +349,9 @@ def concrete_case(case, order, rnd):
             dates = [['x-amz-date', a], ['x-amz-date', b]]
         elif case == 'x-amz-date-vs-date':
             dates = [['date', decoy_ts], ['x-amz-date', TS]] if want_ok else [['date', TS], ['x-amz-date', decoy_ts]]
+        elif case in ('x-amz-date-blank', 'x-amz-date-spaces'):
+            blank = '' if case == 'x-amz-date-blank' else '  '
+            dates = [['date', blank], ['x-amz-date', TS]] if want_ok else [['x-amz-date', blank], ['date', TS]]
         elif case == 'date-twice':
             a, b = first(TS, decoy_ts)
             dates = [['date', a], ['date', b]]
